@@ -1,5 +1,7 @@
 (* C03 - Every produced document is a well-formed docutils tree.
-   Statements only; proofs are in Doc/*.v. *)
+   Statements only; proofs in Doc/PostProofs.v, TopProofs.v, DecoProofs.v, Final.v.
+   Model: identity-labelled trees (Doc/Node.v: every node carries the allocation number of its Python
+   object), renderer Doc/Render.v, docutils registries Doc/Registry.v, predicates Doc/WF.v. *)
 From Coq Require Import List NArith Bool.
 From MV Require Import Base.PyStr.
 From MV Require Import Base.Res.
@@ -9,8 +11,30 @@ From MV Require Import Doc.Node.
 From MV Require Import Doc.Registry.
 From MV Require Import Doc.Prog.
 From MV Require Import Doc.Render.
+From MV Require Import Doc.Transforms.
 From MV Require Import Doc.WF.
+From MV Require Import Doc.Post.
+From MV Require Import Doc.TopProofs.
+From MV Require Import Doc.Final.
 Import ListNotations.
+
+(* "each node has exactly one parent and occurs once": no allocation number (= Python object) is reachable
+   twice - in the document the renderer produces, and still after the modelled transforms that create, move
+   or replace nodes (SortFootnotes, docutils Footnotes: labels / reference texts; CollectFootnotes: remove +
+   append; ResolveAnchorIds: appended inline / warning, Sphinx: pending_xref around the moved children).  For
+   both back ends, every configuration, oracle behaviour and token forest of the static grammar. *)
+Theorem C03_single_occurrence : forall B C OR ts,
+  static_forest ts = true ->
+  (forall doc ws, render_doc B C OR ts = Good (doc, ws) -> NoDup (oids doc)) /\
+  (forall doc ws, render_xform B C OR ts = Good (doc, ws) -> NoDup (oids doc)).
+Proof. exact single_occurrence. Qed.
+Print Assumptions C03_single_occurrence.
+
+(* sections occur only directly under the document or another section, and start with a title *)
+Theorem C03_sections_ok : forall B C OR ts doc ws,
+  static_forest ts = true -> render_doc B C OR ts = Good (doc, ws) -> sections_ok [] doc = true.
+Proof. exact sections_ok_render. Qed.
+Print Assumptions C03_sections_ok.
 
 (* transitions occur only directly under the document or a section: REFUTED on the faithful model.
    render_hr appends the transition to whatever the current node is; witness: a thematic break
@@ -19,8 +43,57 @@ Theorem C03_transitions_ok_refuted :
   exists (ts : list tok) doc ws,
     render_doc Docutils default_cfg dummy_oracles ts = Good (doc, ws) /\
     transitions_ok [] doc = false.
-Proof.
-  exists [mk_tok k_blockquote [mk_tok k_hr []]].
-  eexists. eexists. split; [vm_compute; reflexivity | vm_compute; reflexivity].
-Qed.
+Proof. exact transitions_ok_refuted. Qed.
 Print Assumptions C03_transitions_ok_refuted.
+
+(* ... guarded version: when thematic breaks occur at the top level only (hr_top: a token is a thematic
+   break itself or contains none), every transition is directly under the document or a section *)
+Theorem C03_transitions_ok_partial : forall B C OR ts doc ws,
+  static_forest ts = true -> forallb hr_top ts = true ->
+  render_doc B C OR ts = Good (doc, ws) -> transitions_ok [] doc = true.
+Proof. exact transitions_ok_guarded. Qed.
+Print Assumptions C03_transitions_ok_partial.
+
+(* every table row has exactly as many cells as the table declares columns, under O_table_shape
+   (tshape: in every table token each body row has as many cells as the header row - what markdown-it
+   delivers; tested on every token tree of the correspondence) *)
+Theorem C03_rows_match_cols : forall B C OR ts doc ws,
+  static_forest ts = true -> forallb tshape ts = true ->
+  render_doc B C OR ts = Good (doc, ws) -> rows_ok doc = true.
+Proof. exact rows_match_cols. Qed.
+Print Assumptions C03_rows_match_cols.
+
+(* identifiers.  Modelled: docutils' set_id / set_name_id_map / set_duplicate_name_id (Registry.v).
+   PARTIAL: an id that set_id generates for a node was registered for no node before, and is registered
+   for this node afterwards (uniqueness by construction of every generated id); the global statement
+   "NoDup of all ids in the tree" and the resolution of refids are checked by correspondence + search. *)
+Theorem C03_ids_unique_partial : forall (make_id : str -> str) (aip : str) o tg f i msgs f',
+  nr_ids (get_rec o tg f) = [] ->
+  set_id make_id aip o tg f = Good ((i, msgs), f') ->
+  has_key i (ids f) = false /\ assoc i (ids f') = Some o.
+Proof. exact set_id_fresh. Qed.
+Print Assumptions C03_ids_unique_partial.
+
+(* ... and the full statement is REFUTED for the Sphinx renderer: ids that are preset (add_math_target)
+   are registered as they are; two equations with the same label carry the same id.
+   (open finding ids:duplicate:target+target) *)
+Theorem C03_ids_unique_refuted :
+  exists (ts : list tok) doc ws,
+    static_forest ts = true /\
+    render_doc Sphinx sphinx_cfg dummy_oracles ts = Good (doc, ws) /\ ids_unique doc = false.
+Proof. exact ids_unique_refuted. Qed.
+Print Assumptions C03_ids_unique_refuted.
+
+(* non-vacuity: two headings (the second opens a sibling section), a table and a thematic break *)
+Example C03_example :
+  let cell := Tok k_th [] [] [] [] [] [] (Some (1, 2)) [tok_inline [tok_text [97]]] in
+  let row := Tok k_tr [] [] [] [] [] [] (Some (1, 2)) [cell] in
+  let ts := [tok_heading 1 [tok_text [97]]; tok_heading 1 [tok_text [98]];
+             Tok k_table [] [] [] [] [] [] (Some (3, 5)) [Tok k_thead [] [] [] [] [] [] (Some (3, 4)) [row]];
+             mk_tok k_hr []] in
+  static_forest ts = true /\ forallb hr_top ts = true /\ forallb tshape ts = true /\
+  match render_doc Docutils default_cfg dummy_oracles ts with
+  | Good (doc, _) => sections_ok [] doc = true /\ transitions_ok [] doc = true /\ rows_ok doc = true
+  | Bad _ => False
+  end.
+Proof. vm_compute. repeat split; reflexivity. Qed.
